@@ -1191,6 +1191,87 @@ def context_managers_to_try(program, log):
         rewrite(f.node.body, f)
 
 
+def sentinel_lookups(program, log):
+    """`x = D.get(k, _S)` immediately followed by `if x is not _S: BODY [else:
+    ELSE]` (or `if x is _S: ELSE else: BODY`), with _S a private module-level
+    `object()` and x read nowhere outside BODY, reads `if k in D: x = D[k];
+    BODY [else: ELSE]` - a unique sentinel is returned exactly when the key is
+    absent."""
+    import copy as _copy
+
+    def pure(n):
+        return all(isinstance(x, (ast.Name, ast.Attribute, ast.Constant,
+                                  ast.Subscript, ast.Load, ast.Dict, ast.Tuple,
+                                  ast.Call, ast.Index if hasattr(ast, 'Index')
+                                  else ast.Load)) and (
+            not isinstance(x, ast.Call) or (isinstance(
+                x.func, ast.Attribute) and x.func.attr == 'get'))
+            for x in ast.walk(n))
+
+    def rewrite(body, f):
+        i = 0
+        while i < len(body):
+            st = body[i]
+            for fld in ('body', 'orelse', 'finalbody'):
+                sub_ = getattr(st, fld, None)
+                if isinstance(sub_, list) and sub_ and isinstance(
+                        sub_[0], ast.stmt):
+                    rewrite(sub_, f)
+            for h in getattr(st, 'handlers', []) or []:
+                rewrite(h.body, f)
+            nxt = body[i + 1] if i + 1 < len(body) else None
+            if isinstance(st, ast.Assign) and len(st.targets) == 1 \
+                    and isinstance(st.targets[0], ast.Name) \
+                    and isinstance(st.value, ast.Call) \
+                    and isinstance(st.value.func, ast.Attribute) \
+                    and st.value.func.attr == 'get' \
+                    and len(st.value.args) == 2 and not st.value.keywords \
+                    and isinstance(st.value.args[1], ast.Name) \
+                    and program.is_sentinel(f.module, st.value.args[1].id) \
+                    and isinstance(nxt, ast.If) \
+                    and isinstance(nxt.test, ast.Compare) \
+                    and len(nxt.test.ops) == 1 \
+                    and isinstance(nxt.test.ops[0], (ast.Is, ast.IsNot)) \
+                    and isinstance(nxt.test.left, ast.Name) \
+                    and nxt.test.left.id == st.targets[0].id \
+                    and isinstance(nxt.test.comparators[0], ast.Name) \
+                    and nxt.test.comparators[0].id == st.value.args[1].id \
+                    and pure(st.value.func.value) and pure(st.value.args[0]):
+                x = st.targets[0].id
+                present = nxt.body if isinstance(
+                    nxt.test.ops[0], ast.IsNot) else nxt.orelse
+                absent = nxt.orelse if isinstance(
+                    nxt.test.ops[0], ast.IsNot) else nxt.body
+                inside = {id(n) for s in present for n in ast.walk(s)}
+                uses = [n for n in ast.walk(f.node) if isinstance(n, ast.Name)
+                        and n.id == x and n is not st.targets[0]
+                        and n is not nxt.test.left]
+                if present and all(id(n) in inside for n in uses):
+                    d_, k_ = st.value.func.value, st.value.args[0]
+                    new_if = ast.If(
+                        test=ast.Compare(_copy.deepcopy(k_), [ast.In()],
+                                         [_copy.deepcopy(d_)]),
+                        body=[ast.Assign([ast.Name(x, ast.Store())],
+                                         ast.Subscript(_copy.deepcopy(d_),
+                                                       _copy.deepcopy(k_),
+                                                       ast.Load()))] + present,
+                        orelse=absent)
+                    ast.copy_location(new_if, nxt)
+                    for n_ in ast.walk(new_if):
+                        if not hasattr(n_, 'lineno'):
+                            ast.copy_location(n_, nxt)
+                    ast.fix_missing_locations(new_if)
+                    body[i:i + 2] = [new_if]
+                    log.append(f'{f.where}: `{x} = ....get(k, '
+                               f'{st.value.args[1].id})` + identity test read '
+                               'as a membership test plus indexing')
+                    continue
+            i += 1
+
+    for f in program.all_functions():
+        rewrite(f.node.body, f)
+
+
 def rpartition_keys(program, log):
     """`p, s, last = k.rpartition(c)` followed by a walk over `p.split(c)`
     that is guarded by `s` (the separator found) reads `ks = k.split(c);
@@ -1486,7 +1567,7 @@ def run(program):
     program.records = {}
     program.cow = set()
     for step in (explicit_properties, walrus_out, inline_simple_decorators,
-                 inline_aliases, context_managers_to_try, rpartition_keys,
+                 sentinel_lookups, inline_aliases, context_managers_to_try, rpartition_keys,
                  slices_of_islice,
                  pop_last_idiom,
                  bool_dispatch_tables, yield_from_genexp, copy_on_write_sets,
